@@ -107,6 +107,13 @@ def build_and_audit(res, pid, extra_mods=()):
                 else:
                     res.discharged.append(t["thm"])
             res.extra["axioms_used"] = sorted({a for t in thms for a in t.get("axioms", [])})
+            if res.tier == "thorough":
+                # independent re-check of the compiled .olean files of the property module (and everything it imports) by Lean's external checker
+                t1 = time.time()
+                rc, out = sh(["lake", "env", "leanchecker"] + mods, cwd=LEAN_DIR, timeout=3000)
+                res.extra["leanchecker"] = {"cmd": "lake env leanchecker " + " ".join(mods), "exit": rc, "seconds": round(time.time() - t1, 1)}
+                if rc != 0:
+                    res.break_("leanchecker", out[-2000:])
             # source-level grep over the transitive project-local imports
             for m, src in lean_sources_for(mods + ["Driver"]).items():
                 for ln in strip_comments(src).splitlines():
